@@ -124,6 +124,7 @@ def run(ctx):
     _no_memoised_hash_on_mutable(ctx, repo)
     _from_op_list_unitary_guard(ctx, repo)
     _clifford_pow_is_repeated_product(ctx, repo)
+    _global_shift_reaches_phase(ctx, repo)
     shared.act_on_routes_qubits_rule(ctx, 'C13.l', floor=3)
     ctx.decided.append('C13.l every state update in an _act_on_ is routed through the qubits the gate is applied to')
     ctx.decided += [
@@ -833,3 +834,91 @@ def _clifford_pow_is_repeated_product(ctx, repo, rid='C13.m'):
         ok = got == k
         ctx.ob(rid, f'{ci.qual}.__pow__:k={k}', ok, '' if ok else
                f'g**{k} is composed as g**{got}: the binary exponentiation skips or repeats a factor (g**3 * g**3 would differ from g**6)', ci.mod.rel, fn.lineno, construct=f'{ci.qual}.__pow__')
+
+
+def _global_shift_reaches_phase(ctx, repo):
+    """C13.n - in a representation that tracks the global phase, the global shift of a gate reaches it on every path."""
+    from ..flow import PathWalker, name_deps
+    rid = 'C13.n'
+    ctx.decided.append('C13.n in every stabilizer representation that keeps a global phase (some method multiplies a field by a value computed from global_shift), each method taking '
+                       'global_shift passes, on every normally ending path, through an update of that field (or a call on self that forwards global_shift)')
+    ctx.rule(rid, 'the global shift always lands: in a class of cirq.sim.clifford / cirq.qis where some method updates a field from its `global_shift` parameter (the phase carrier), every '
+             'method with a `global_shift` parameter executes, on every path that ends without raising, a statement that updates the carrier from global_shift or a self-call that '
+             'forwards it - a path that skips it (e.g. the even-exponent shortcut) treats a gate like rx(2 pi) = -I as +I, a relative phase once the gate is controlled or the state '
+             'compared with another simulator', floor=6, style='MPT')
+    n = 0
+    for ci in sorted(repo.classes.values(), key=lambda c: c.qual):
+        if not (ci.mod.rel.startswith('cirq-core/cirq/sim/clifford/') or ci.mod.rel.startswith('cirq-core/cirq/qis/')) or ci.mod.rel.endswith('_test.py'):
+            continue
+        meths = {mn: fn for mn, fn in ci.methods.items() if any(a.arg == 'global_shift' for a in fn.args.args + fn.args.kwonlyargs)}
+        if not meths:
+            continue
+
+        def carrier_updates(fn):
+            deps = name_deps(fn, {'global_shift': {'global_shift'}})
+            out = []
+            for st in ast.walk(fn):
+                if isinstance(st, (ast.Assign, ast.AugAssign)):
+                    tg = st.targets if isinstance(st, ast.Assign) else [st.target]
+                    if any(isinstance(t, ast.Attribute) and isinstance(t.value, ast.Name) and t.value.id == 'self' for t in tg):
+                        used = {x.id for x in ast.walk(st.value) if isinstance(x, ast.Name)}
+                        if 'global_shift' in used or any('global_shift' in deps.get(u, ()) for u in used):
+                            out.append(st)
+            return out
+        carriers = set()
+        for fn in meths.values():
+            for st in carrier_updates(fn):
+                for t in (st.targets if isinstance(st, ast.Assign) else [st.target]):
+                    if isinstance(t, ast.Attribute):
+                        carriers.add(t.attr)
+        if not carriers:
+            continue  # the representation keeps no global phase (CliffordTableau): the parameter is documented as ignored
+        for mn, fn in sorted(meths.items()):
+            ups = set(map(id, carrier_updates(fn)))
+            deps = name_deps(fn, {'global_shift': {'global_shift'}})
+
+            def lands(node):
+                if id(node) in ups:
+                    return True
+                for c in ast.walk(node):
+                    if isinstance(c, ast.Call) and isinstance(c.func, ast.Attribute) and isinstance(c.func.value, ast.Name) and c.func.value.id == 'self' \
+                            and c.func.attr in meths and c.func.attr != mn:
+                        args = list(c.args) + [k.value for k in c.keywords]
+                        if any(isinstance(x, ast.Name) and (x.id == 'global_shift' or 'global_shift' in deps.get(x.id, ())) for a in args for x in ast.walk(a)):
+                            return True
+                return False
+
+            # the only arithmetic the walker knows: after `if exponent % 0.5 != 0: raise`, exponent % 2 is one of 0, 0.5, 1, 1.5, so an
+            # if / elif ladder over `exponent % 2 == c` that has refused all four has no fall-through
+            def residue_test(test):
+                if isinstance(test, ast.Compare) and len(test.ops) == 1 and isinstance(test.left, ast.BinOp) and isinstance(test.left.op, ast.Mod) \
+                        and isinstance(test.left.left, ast.Name) and isinstance(test.left.right, ast.Constant) and isinstance(test.comparators[0], ast.Constant):
+                    return test.left.left.id, float(test.left.right.value), type(test.ops[0]).__name__, float(test.comparators[0].value)
+                return None
+
+            def branch(test, pol, st):
+                landed, half, excl = st
+                r = residue_test(test)
+                if r is not None:
+                    var, mod_, op, c = r
+                    if mod_ == 0.5 and c == 0.0 and ((op == 'NotEq' and not pol) or (op == 'Eq' and pol)):
+                        half = half | {var}
+                    if mod_ == 2.0 and ((op == 'Eq' and not pol) or (op == 'NotEq' and pol)):
+                        excl = excl | {(var, c)}
+                    if any(v in half and {(v, 0.0), (v, 0.5), (v, 1.0), (v, 1.5)} <= excl for v in half):
+                        return []
+                return [(landed, half, excl)]
+
+            w = PathWalker(lambda node, st: [(st[0] or lands(node), st[1], st[2])], branch)
+            try:
+                exits = w.run(fn, (False, frozenset(), frozenset()))
+            except RuntimeError as e:
+                ctx.unres(rid, f'{ci.qual}.{mn}', str(e), ci.mod.rel, fn.lineno)
+                continue
+            bad = [(k, node) for k, st, node in exits if k != 'raise' and not st[0]]
+            n += 1
+            ctx.ob(rid, f'{ci.qual}.{mn}:shift-lands', not bad, '' if not bad else
+                   f'a path ending at line {getattr(bad[0][1], "lineno", fn.lineno)} ({bad[0][0]}) never updates {sorted(carriers)} from global_shift: on that path the gate is applied '
+                   'without its global phase', ci.mod.rel, fn.lineno)
+    if n == 0:
+        raise AnalysisError('C13.n: no phase-tracking stabilizer representation found')
